@@ -5,7 +5,10 @@ PROP = "C04"
 LEAN_TARGETS = ["Eliot.Properties.C04", "Eliot.Properties.C04Place"]
 AUDIT = "Eliot/Audit/C04.lean"
 SKELETON_TARGETS = {"Sys.C04.skeleton_E6": "Eliot.Properties.C04Skel",
-                    "Sys.UuidSkel.skeleton_E11_task_uuids_are_uuid4": "Eliot.Properties.UuidSkel"}
+                    "Sys.UuidSkel.skeleton_E11_task_uuids_are_uuid4": "Eliot.Properties.UuidSkel",
+                    # E14: the bodies of start_action / startTask / log_message / Action.child as the source has them now
+                    "Sys.C03Fin.placement_shapes (E14: where a new action or message goes)":
+                    ("Eliot.Properties.C03Fin", "Eliot/Audit/C03Fin.lean", ["Sys.C03Fin.placement_shapes"])}
 THEOREMS = ["Sys.C04.execS_good", "Sys.C04.execB_good", "Sys.C04.exec_restores_ctx", "Sys.C04.program_ends_contextless",
             "Sys.C04.inside_is_current", "Sys.C04.probe_in_body_sees_action", "Sys.C04.start_task_fresh",
             "Sys.C04.contextless_msg_own_task",
